@@ -271,4 +271,61 @@ def rule_apply(ctx):
     return r
 
 
-RULES = [rule_forbid, rule_filter, rule_agree, rule_apply]
+def rule_model(ctx):
+    r = RuleResult("C07-MODEL", "the cost model only slices indices it knows, against its own baseline", 3)
+    cc = ctx.p.cls(C.SLICER, "ContractionCosts")
+    rm = cc.methods.get("remove")
+    C.require(rm is not None, "ContractionCosts.remove not found")
+    # (a) strict lookup: an index that features in no contraction (already sliced, or
+    # unknown) must not be 'removed' by just multiplying nslices
+    key = ctx.key(rm, "C07-MODEL", "strict-lookup")
+    fl = ctx.flow(rm)
+    lookups = []
+    for n, call in fl.calls():
+        if isinstance(call.func, ast.Attribute) and call.func.attr in ("pop", "get") and \
+                "_where" in ast.unparse(call.func.value):
+            lookups.append((n, call))
+    subs = [n for n in walk_local(rm.node) if isinstance(n, ast.Subscript)
+            and "_where" in ast.unparse(n.value) and isinstance(n.ctx, ast.Load)]
+    guarded = any(isinstance(n, ast.If) and "not in" in ast.unparse(n.test)
+                  and any(isinstance(x, ast.Raise) for x in n.body) for n in walk_local(rm.node))
+    lenient = [c for _, c in lookups if len(c.args) >= 2 or c.func.attr == "get"]
+    if (lookups or subs) and (not lenient or guarded):
+        r.ok(key, rm.loc, "per-index bookkeeping is looked up strictly (unknown index raises)")
+    elif lenient:
+        r.violation(key, C.loc(rm, lenient[0]), "an index that features in no contraction of the "
+                    "model (e.g. one the tree is already sliced on) is accepted silently: "
+                    "nslices is multiplied although nothing is sliced, so the prediction "
+                    "differs from the tree sliced on the returned set")
+    else:
+        raise AnalysisError("ContractionCosts.remove: per-index lookup not recognised")
+    # (b) overhead baseline: original_flops comes from the model's own flops or is copied
+    for f in cc.methods.values():
+        for n in walk_local(f.node):
+            val = None
+            if isinstance(n, ast.Assign) and any(C.unparse(t).endswith(".original_flops")
+                                                 for t in n.targets):
+                val = n.value
+            elif isinstance(n, ast.Call) and isinstance(n.func, ast.Attribute) and \
+                    n.func.attr == "setdefault" and n.args and \
+                    isinstance(n.args[0], ast.Constant) and n.args[0].value == "original_flops":
+                val = n.args[1] if len(n.args) > 1 else None
+            elif isinstance(n, ast.keyword) and n.arg == "original_flops":
+                val = n.value
+            if val is None:
+                continue
+            key = ctx.key(f, "C07-MODEL", "baseline")
+            txt = C.unparse(val)
+            own = txt in ("original_flops", "other.original_flops", "self._flops") or \
+                isinstance(val, ast.Name)
+            if own:
+                r.ok(key, C.loc(f, n), "baseline is the model's own per-slice flops (or a copy)")
+            else:
+                r.violation(key, C.loc(f, n), f"the overhead baseline is taken from `{txt}`, a "
+                            "figure on a different scale than the model's nslices x flops "
+                            "(e.g. it already includes the tree's slice count): the reported "
+                            "overhead and the target_overhead test are off by that factor")
+    return r
+
+
+RULES = [rule_forbid, rule_filter, rule_agree, rule_apply, rule_model]
